@@ -11,7 +11,6 @@ import (
 	"os"
 	"path"
 	"slices"
-	"strings"
 
 	"github.com/open2b/scriggo/ast"
 )
@@ -35,7 +34,7 @@ type FormatFS interface {
 // relative trees.
 func ParseTemplate(fsys fs.FS, name string, noParseShow bool, transformer func(*ast.Tree) error) (*ast.Tree, error) {
 
-	if name == "." || strings.HasSuffix(name, "/") {
+	if name == "." || !fs.ValidPath(name) {
 		return nil, os.ErrInvalid
 	}
 
@@ -96,11 +95,15 @@ type parsedTree struct {
 //	if name is ../d/e, the rooted path name is a/d/e
 //	if name is ../../d/e, the rooted path name is d/e
 func rooted(parent, name string) (string, error) {
+	var r string
 	if path.IsAbs(name) {
-		return name[1:], nil
+		r = name[1:]
+	} else {
+		r = path.Join(path.Dir(parent), name)
 	}
-	r := path.Join(path.Dir(parent), name)
-	if r == ".." || strings.HasPrefix(r, "../") {
+	// A path that leaves the root, or a path changed by a transformer that
+	// is not a valid path, does not name a file of the file system.
+	if r == "." || !fs.ValidPath(r) {
 		return "", os.ErrNotExist
 	}
 	return r, nil
